@@ -137,3 +137,115 @@ Proof.
     destruct (Cases r' Hr') as [C|(r & Hr & ->)]; [apply (rows_id_in f 0); now apply SubO|].
     unfold reparent. destruct (Nat.eqb (r_par r) n); cbn [r_id fst snd]; apply (rows_id_in f 0); now apply SubI.
 Qed.
+
+(* ---- Node._check_keep_children over the pointers = contraction of the sibling list ---- *)
+Lemma memn_existsb c V : memn c V = existsb (Nat.eqb c) V.
+Proof. reflexivity. Qed.
+
+Lemma map_flat_map_l {X Y Z} (g : Y -> Z) (h : X -> list Y) l : map g (flat_map h l) = flat_map (fun x => map g (h x)) l.
+Proof. induction l as [|x l IH]; [reflexivity|]. cbn. now rewrite map_app, IH. Qed.
+
+Lemma h_kept_ok h V : forall fuel l x,
+  hch h x = map rid l -> (forall s, In s (pre_f l) -> hch h (rid s) = map rid (rch s)) -> size_f l < fuel ->
+  h_kept fuel h V x = map rid (flat_map (contract_t V) l).
+Proof.
+  induction fuel as [|fuel IH]; intros l x Hx Hs Lt; [lia|]. cbn [h_kept]. rewrite Hx, flat_map_map.
+  rewrite map_flat_map_l. apply flat_map_ext_in'. intros c Hc.
+  destruct (memn (rid c) V) eqn:M.
+  - rewrite contract_t_in by (now apply memn_In). apply IH.
+    + apply Hs. now apply in_pre_f_top.
+    + intros s Hs'. apply Hs. apply in_flat_map. exists c. split; [assumption|]. rewrite pre_unfold. now right.
+    + assert (size c <= size_f l).
+      { clear -Hc. induction l as [|y l IHl]; [contradiction|]. rewrite size_f_cons. destruct Hc as [->|Hc]; [lia|]. specialize (IHl Hc). lia. }
+      destruct c as [id i ch]. rewrite size_unfold in H. cbn [rch]. lia.
+  - rewrite contract_t_out by (now apply memn_false). reflexivity.
+Qed.
+
+Lemma contract_sub V : (forall t x, In x (contract_t V t) -> In x (pre t)) /\
+                       (forall l x, In x (flat_map (contract_t V) l) -> In x (pre_f l)).
+Proof.
+  apply rt_forest_ind.
+  - intros id i ch IH x Hx. cbn [contract_t] in Hx. destruct (existsb (Nat.eqb id) V).
+    + cbn [pre]. right. now apply IH.
+    + destruct Hx as [<-|[]]. apply pre_in_self.
+  - intros x [].
+  - intros t f IHt IHf x Hx. cbn [flat_map] in *. apply in_app_or in Hx. apply in_or_app. destruct Hx; [left; now apply IHt|right; now apply IHf].
+Qed.
+
+Lemma keep_collides_agree h t V v : WF t -> Rep h t -> In v (ids (forest_of t)) ->
+  h_keep_collides_all h V v = keep_collides_all t V v.
+Proof.
+  intros W R Hv. set (f := forest_of t) in *. unfold h_keep_collides_all, keep_collides_all. fold f.
+  destruct (get_node_complete v f Hv) as (s & Gs). destruct (get_node_loc v f s Gs) as (q0 & i & l & E & N). rewrite E.
+  destruct (node_loc_spec v f q0 i l E) as (G & s' & N' & Rs & _ & Ps). rewrite N in N'. injection N' as <-.
+  assert (Row := rows_child_in q0 f l 0 s G (nth_error_In _ _ N)). rewrite Rs in Row.
+  destruct (rep_node h t R _ Row) as (Hp & _). cbn [r_id r_par fst snd] in Hp. rewrite Hp.
+  assert (Sub : forall x, In x (pre_f l) -> In x (pre_f f)) by (intros x Hx; now apply (get_ch_pre q0 f l G)).
+  rewrite (h_kept_ok h V (h_fuel h) l).
+  - rewrite map_map. f_equal. apply map_ext_in. intros x Hx. unfold hdid. rewrite (rep_info h t x R); [reflexivity|].
+    apply Sub. now apply (proj2 (contract_sub V)).
+  - now apply (rep_children_ctx h t q0).
+  - intros x Hx. apply (rep_node_children h t x W R). now apply Sub.
+  - apply (fuel_enough h t l W R); [now apply (NoDup_child_list q0 f l (wf_nodup t W))|now apply (ids_sub_child q0)].
+Qed.
+
+Lemma remove_keep_complete t v : In v (ids (forest_of t)) -> exists a, remove_keep t v = Some a.
+Proof.
+  intros Hv. destruct (get_node_complete v _ Hv) as (s & Gs). destruct (get_node_loc v _ s Gs) as (q0 & i & l & E & N).
+  unfold remove_keep. rewrite E, N. eexists. reflexivity.
+Qed.
+
+Lemma fold_remove_keep V d : forall vs h t, incl vs V -> WF t -> Gall V (forest_of t) -> Vdid V d t -> Rep h t ->
+  Rep (fold_left (fun acc v => if h_live acc v then (if true then h_remove_keep acc v else h_remove_plain acc v) else acc) vs h)
+      (fold_left (fun acc v => if live acc v then match remove_one acc v true with Some a => a | None => acc end else acc) vs t).
+Proof.
+  induction vs as [|v vs IH]; intros h t Hi W Ga Hv R; cbn [fold_left]; [exact R|].
+  assert (Hi' : incl vs V) by (intros x Hx; apply Hi; now right).
+  rewrite (live_agree h t v W R). destruct (live t v) eqn:L; [|now apply IH]. cbn [remove_one].
+  assert (Hin : In v (ids (forest_of t))).
+  { unfold live in L. apply existsb_exists in L. destruct L as (m & Hm & E). apply Nat.eqb_eq in E. now subst. }
+  destruct (remove_keep_complete t v Hin) as (t1 & E). rewrite E.
+  destruct (remove_keep_spec t v t1 E) as (q0 & a & s & b & G & Rs & ->).
+  assert (Is : In (rid s) V) by (rewrite Rs; apply Hi; now left).
+  destruct (WF_splice t q0 a s b W G (keep_step V d t q0 a s b W Ga Hv Is G)) as (W1 & P). rewrite Rs in W1.
+  assert (Pk := splice_keys q0 _ a s b G).
+  assert (R1 := Rep_splice h t q0 a s b W R G). rewrite Rs in R1.
+  set (t1 := set_all t (upd_ch q0 (fun _ => a ++ rch s ++ b) (forest_of t)) (reg_del v (reg t)) (idx_del (rdid s) v (idx t))) in *.
+  apply IH; auto.
+  - intros l' C'. destruct (proj2 (splice_dc V q0 _ a s b G Is) l' C') as (l0 & C0 & E0). rewrite E0. now apply Ga.
+  - intros u Iu Hu. cbn [forest_of t1 set_all] in *.
+    assert (Hu0 : In u (ids (forest_of t))) by (apply (Permutation_in _ (Permutation_sym P)); now right).
+    assert (K := Hv u Iu Hu0). apply (Permutation_in _ Pk) in K. destruct K as [K|K]; [|assumption].
+    exfalso. assert (Eu : rid s = u) by congruence. assert (NDu : NoDup (rid s :: ids (upd_ch q0 (fun _ => a ++ rch s ++ b) (forest_of t)))) by (apply (Permutation_NoDup P), W).
+    inversion NDu as [|x l N1 N2]; subst. apply N1. exact Hu.
+Qed.
+
+Theorem sim_op_remove_keep hw w ti n wc : WFw w -> RepW hw w ->
+  Sim (h_op_remove hw ti n true wc) (op_remove w ti n true wc).
+Proof.
+  intros W RW. unfold h_op_remove, op_remove. assert (G := RepW_get hw w ti RW).
+  destruct (h_get hw ti) as [h|]; destruct (get_tree w ti) as [t|] eqn:Gt; try contradiction; [|now apply Sim_same].
+  assert (Wt := WFw_tree w ti t W Gt). assert (D := did_of_agree h t n Wt G).
+  destruct (did_of n (forest_of t)) as [d|] eqn:Dn.
+  2:{ rewrite D. now apply Sim_same. }
+  destruct D as (L & Ed). rewrite L, Ed, (rep_idx h t G). cbn [negb andb].
+  set (V := if wc then filter (fun c => negb (Nat.eqb c n)) (idx_get d (idx t)) ++ [n] else [n]).
+  assert (Kn : In (n, d) (keys (forest_of t))).
+  { unfold did_of in Dn. destruct (get_node n (forest_of t)) as [s|] eqn:Gn; [|discriminate]. cbn in Dn. injection Dn as <-.
+    destruct (get_node_spec n _ s Gn) as (Ps & <-). now apply keys_in. }
+  assert (Hv : Vdid V d t).
+  { intros u Iu _. unfold V in Iu. destruct wc.
+    - apply in_app_or in Iu. destruct Iu as [Iu|[<-|[]]]; [|assumption]. apply filter_In in Iu. destruct Iu as [Iu _].
+      now apply (idx_get_keys t u d Wt).
+    - destruct Iu as [<-|[]]. assumption. }
+  assert (Vl : forall u, In u V -> In u (ids (forest_of t))).
+  { intros u Iu. assert (K := Hv u Iu). unfold V in Iu.
+    assert (Ku : In (u, d) (keys (forest_of t))).
+    { destruct wc; [apply in_app_or in Iu; destruct Iu as [Iu|[<-|[]]]; [|assumption]; apply filter_In in Iu; destruct Iu as [Iu _]; now apply (idx_get_keys t u d Wt)|destruct Iu as [<-|[]]; assumption]. }
+    rewrite <- (keys_fst (forest_of t)). change u with (fst (u, d)). now apply in_map. }
+  replace (existsb (h_keep_collides_all h V) V) with (existsb (keep_collides_all t V) V)
+    by (apply existsb_ext_in'; intros u Iu; symmetry; apply keep_collides_agree; auto).
+  destruct (existsb (keep_collides_all t V) V) eqn:Col; [now apply Sim_same|].
+  split; [reflexivity|]. cbn [snd]. unfold h_put, put_tree. rewrite (repw_next hw w RW). apply RepW_put; [assumption|].
+  apply (fold_remove_keep V d V h t (incl_refl V) Wt (Gall_init t V Wt (existsb_false_forall _ _ Col)) Hv G).
+Qed.
